@@ -238,22 +238,35 @@ class Extracted:
             ok, out = coq_make(["%s/%s.vo" % (self.prop, self.module)])
             if not ok:
                 raise RuntimeError(out[-3000:])
-        if self.exe.exists() and self.exe.stat().st_mtime > vo.stat().st_mtime and \
-                self.exe.stat().st_mtime > (VERIF / "harness" / "driver.ml").stat().st_mtime:
+        def fresh():
+            return self.exe.exists() and self.exe.stat().st_mtime > vo.stat().st_mtime and \
+                self.exe.stat().st_mtime > (VERIF / "harness" / "driver.ml").stat().st_mtime
+        if fresh():
             return
         with BuildLock("extract_" + self.prop):
+            if fresh():        # another process built it while this one waited for the lock
+                return
+            # build in a private directory and publish the binary with an atomic rename, so that a
+            # concurrent check never executes (or sees) a half-linked run.exe
             self.dir.mkdir(parents=True, exist_ok=True)
-            (self.dir / "Extract.v").write_text(
-                EXTRACT_V % {"prop": self.prop, "module": self.module, "fn": self.fn})
-            rc, out = sh(["timeout", "600", "coqc", "-Q", str(COQ), "IBL", "Extract.v"], cwd=self.dir)
-            if rc != 0:
-                raise RuntimeError("extraction failed:\n" + out[-3000:])
-            shutil.copy(VERIF / "harness" / "driver.ml", self.dir / "driver.ml")
-            rc, out = sh("ocamlfind ocamlopt -O2 -w -a model_run.mli model_run.ml driver.ml -o run.exe "
-                         "2>&1 || ocamlfind ocamlopt -w -a model_run.mli model_run.ml driver.ml -o run.exe",
-                         cwd=self.dir, timeout=900)
-            if rc != 0 or not self.exe.exists():
-                raise RuntimeError("ocaml build failed:\n" + out[-3000:])
+            tmp = Path(tempfile.mkdtemp(prefix="x_", dir=self.dir))
+            try:
+                (tmp / "Extract.v").write_text(
+                    EXTRACT_V % {"prop": self.prop, "module": self.module, "fn": self.fn})
+                rc, out = sh(["timeout", "600", "coqc", "-Q", str(COQ), "IBL", "Extract.v"], cwd=tmp)
+                if rc != 0:
+                    raise RuntimeError("extraction failed:\n" + out[-3000:])
+                shutil.copy(VERIF / "harness" / "driver.ml", tmp / "driver.ml")
+                rc, out = sh("ocamlfind ocamlopt -O2 -w -a model_run.mli model_run.ml driver.ml -o run.exe "
+                             "2>&1 || ocamlfind ocamlopt -w -a model_run.mli model_run.ml driver.ml -o run.exe",
+                             cwd=tmp, timeout=900)
+                if rc != 0 or not (tmp / "run.exe").exists():
+                    raise RuntimeError("ocaml build failed:\n" + out[-3000:])
+                for f in ("model_run.ml", "model_run.mli", "Extract.v"):
+                    shutil.copy(tmp / f, self.dir / f)
+                os.replace(tmp / "run.exe", self.exe)
+            finally:
+                shutil.rmtree(tmp, ignore_errors=True)
 
     def run_many(self, inputs, nproc=None, timeout=3000):
         """inputs: list of int lists -> list of int lists (same order)."""
